@@ -720,6 +720,63 @@ def part_axes(ctx, shard):
                 ctx.violation(base + "|mode=wrong-value", case, np.asarray(want).tolist(), got.tolist())
 
 
+# ---- reductions with a quantity-valued start value ----------------------------------------------------------------------
+def part_initial(ctx, shard):
+    """reduce(..., initial=q): the start value takes part like any other element, whatever commensurable unit it is
+    written in - for every ufunc of the family and the function / method spellings built on them."""
+    world.reset_world()
+    for unit, iunit in shard:
+        data = np.array([[1.5, 4.0, 2.5], [3.0, 0.5, 6.0]])
+        sc, isc = float(Unit(unit).base_value), float(Unit(iunit).base_value)
+        dim = dim_of(Unit(unit).dimensions)
+        calls = {
+            "add.reduce": (lambda x, q, ax: np.add.reduce(x, axis=ax, initial=q), np.add),
+            "maximum.reduce": (lambda x, q, ax: np.maximum.reduce(x, axis=ax, initial=q), np.maximum),
+            "minimum.reduce": (lambda x, q, ax: np.minimum.reduce(x, axis=ax, initial=q), np.minimum),
+            "fmax.reduce": (lambda x, q, ax: np.fmax.reduce(x, axis=ax, initial=q), np.fmax),
+            "fmin.reduce": (lambda x, q, ax: np.fmin.reduce(x, axis=ax, initial=q), np.fmin),
+            "hypot.reduce": (lambda x, q, ax: np.hypot.reduce(x, axis=ax, initial=q), np.hypot),
+            "np.sum": (lambda x, q, ax: np.sum(x, axis=ax, initial=q), np.add),
+            "np.max": (lambda x, q, ax: np.max(x, axis=ax, initial=q), np.maximum),
+            "np.min": (lambda x, q, ax: np.min(x, axis=ax, initial=q), np.minimum),
+            "np.nanmax": (lambda x, q, ax: np.nanmax(x, axis=ax, initial=q), np.fmax),
+            "np.nanmin": (lambda x, q, ax: np.nanmin(x, axis=ax, initial=q), np.fmin),
+            "np.nansum": (lambda x, q, ax: np.nansum(x, axis=ax, initial=q), np.add),
+            "sum-method": (lambda x, q, ax: x.sum(axis=ax, initial=q), np.add),
+            "max-method": (lambda x, q, ax: x.max(axis=ax, initial=q), np.maximum),
+            "min-method": (lambda x, q, ax: x.min(axis=ax, initial=q), np.minimum),
+        }
+        # start values that decide the result (larger than every element / smaller than every element) and one in between
+        for ival_si in (100.0 * sc, 0.01 * sc, 3.25 * sc):
+            for qform in ("quantity", "0d-array"):
+                q = unyt_quantity(ival_si / isc, iunit) if qform == "quantity" else unyt_array(np.array(ival_si / isc), iunit)
+                for (cname, (f, uf)), ax in itertools.product(calls.items(), (None, 0, -1)):
+                    if ax is None and cname.endswith(".reduce"):
+                        ax_use = (0, 1)
+                    else:
+                        ax_use = ax
+                    ctx.count("evaluations")
+                    ctx.count("transitions")
+                    x = unyt_array(data.copy(), unit)
+                    r = run_real(lambda: f(x, q, ax_use))
+                    case = {"part": "initial", "unit": unit, "initial_unit": iunit, "call": cname, "axis": ax, "initial_si": ival_si, "qform": qform}
+                    ctx.outcome(("initial", cname, unit == iunit, r[0]))
+                    if r[0] != "ok":
+                        ctx.count("refused")
+                        continue
+                    ctx.decided(("initial", unit, iunit, cname, ax, ival_si, qform))
+                    want = uf.reduce(data * sc, axis=ax_use, initial=ival_si)
+                    res = r[1]
+                    ru = getattr(res, "units", None)
+                    base = f"C04|initial|call={cname}|units={'same' if unit == iunit else 'mixed'}|start={qform}"
+                    if ru is None or dim_of(ru.dimensions) != dim:
+                        ctx.violation(base + "|mode=wrong-dimension", case, str(dim), str(ru))
+                        continue
+                    got = np.asarray(res.d, dtype=float) * float(ru.base_value)
+                    if got.shape != np.shape(want) or np.any(np.abs(got - want) > 64 * EPS * np.abs(want)):
+                        ctx.violation(base + "|mode=wrong-value", case, np.asarray(want).tolist(), got.tolist())
+
+
 # ---- array-valued exponents ---------------------------------------------------------------------------------------------
 def part_array_power(ctx, shard):
     """x ** e with an array e: a dimensional base accepts only a uniform exponent (every element gets the same unit);
@@ -873,6 +930,7 @@ def run(ctx):
     harness.pmap(ctx, part_extra, [extra_pairs[i::32] for i in range(32)])
     harness.pmap(ctx, part_namesake, [["stale-after-modify"], ["two-registries"]])
     harness.pmap(ctx, part_axes, [[(u, sh)] for u in RED_UNITS for sh in ((2, 3), (2, 3, 4), (3,), (1, 3))])
+    harness.pmap(ctx, part_initial, [[p] for p in (("km", "km"), ("km", "m"), ("m", "km"), ("hr", "s"), ("g", "kg"), ("K", "R"))])
     harness.pmap(ctx, part_array_power, [[u] for u in ("km", "hr/s", "dimensionless", "percent", "m/s")])
     wpairs = [(a, b) for a in WIDTH_DTYPES for b in WIDTH_DTYPES if np.dtype(a).itemsize != np.dtype(b).itemsize]
     harness.pmap(ctx, part_widths, [[(up, dp)] for up in (("km", "m"), ("m", "km"), ("hr", "s"), ("m", "cm")) for dp in wpairs])
@@ -901,6 +959,9 @@ def replay(case):
         return list(ctx.violations.items())
     if case.get("part") == "axes":
         part_axes(ctx, [(case["unit"], tuple(case["shape"]))])
+        return list(ctx.violations.items())
+    if case.get("part") == "initial":
+        part_initial(ctx, [(case["unit"], case["initial_unit"])])
         return list(ctx.violations.items())
     if case.get("part") == "array-power":
         part_array_power(ctx, [case["unit"]])
